@@ -36,7 +36,7 @@ NLINES = int(PARAMS.get("nlines", 3))
 REPLACE = bool(PARAMS.get("replace", True))
 MERGE = bool(PARAMS.get("merge", False))
 FIRST = PARAMS.get("first")  # fix the kind of the first line
-KINDS = ["blank", "ws", "code", "indented", "own-comment", "foreign-comment", "old-header", "shebang", "absent"]
+KINDS = ["blank", "ws", "code", "indented", "own-comment", "foreign-comment", "old-header", "shebang", "absent", "late-shebang"]
 ALLOWED = PARAMS.get("kinds", list(range(len(KINDS))))
 
 OLD_C = "SPDX-FileCopyrightText: 2019 Old Holder"
@@ -83,6 +83,10 @@ def line_of(kind, i):
     if kind == "shebang":
         sb = STYLE.SHEBANGS[0] if STYLE.SHEBANGS else "#!"
         return [sb + "/usr/bin/env thing"]
+    if kind == "late-shebang":
+        # a line further down that merely starts like one of the style's first-line declarations
+        sb = STYLE.SHEBANGS[-1] if STYLE.SHEBANGS else "#!"
+        return [sb + f" again {i}"]
     return []
 
 
@@ -112,6 +116,8 @@ def scenario(k0, k1, k2, k3, final_nl):
     seen_header = False
     for i, k in enumerate(kinds):
         if k == "shebang" and i != 0:
+            k = "code"
+        if k == "late-shebang" and i == 0:
             k = "code"
         if k == "old-header":
             if seen_header:
@@ -296,12 +302,20 @@ def keep_story(k0, k1, k2, k3, final_nl):
             removable = set(range(lo, hi))
     # leading lines that look like one of the style's shebangs are kept (moved above the header)
     shebang_lines = set()
-    if STYLE.SHEBANGS:
-        for i, l in enumerate(lines):
-            if any(l.startswith(sb) for sb in STYLE.SHEBANGS) and all(j in shebang_lines for j in range(i)):
-                shebang_lines.add(i)
-            else:
+    if STYLE.SHEBANGS and lines:
+        # the first-line declaration: the first of the style's prefixes the first line starts with; the lines
+        # that directly follow and start with the SAME prefix belong to it
+        pref = None
+        for sb in STYLE.SHEBANGS:
+            if lines[0].startswith(sb):
+                pref = sb
                 break
+        if pref is not None:
+            for i, l in enumerate(lines):
+                if l.startswith(pref):
+                    shebang_lines.add(i)
+                else:
+                    break
     # a shebang run only counts when nothing but it precedes the header / the code
     removable -= shebang_lines
     out_lines = out.split("\n")
@@ -378,6 +392,8 @@ class MemFS:
             if p not in fs.files:
                 raise FileNotFoundError(2, "no such file", p)
             raw = fs.files[p]
+            if encoding and encoding.lower().replace("_", "-") == "utf-8-sig" and raw.startswith("\ufeff"):
+                raw = raw[1:]  # the BOM-aware codec swallows the mark on reading
             if newline is None:
                 raw = raw.replace("\r\n", "\n").replace("\r", "\n")  # universal newlines
             return io.StringIO(raw)
@@ -391,6 +407,8 @@ class MemFS:
                     data = data.replace("\n", _os.linesep)
                 elif newline not in ("", "\n"):
                     data = data.replace("\n", newline)
+                if encoding and encoding.lower().replace("_", "-") == "utf-8-sig":
+                    data = "\ufeff" + data
                 fs.files[p] = data
                 super().close()
 
@@ -436,7 +454,9 @@ def file_story(k0, k1, e, final_nl, bom):
         return "file written although the text-level call refuses", items, raw, got
     if got.replace(conv, "\n") != want:
         return "file content differs from the text-level result", items, raw, got
-    # 3. a byte order mark stays first
+    # 3. a byte order mark stays first (and in any case is not lost, except that a .license file is rewritten whole)
+    if bom and "﻿" not in got and STYLE is not cm.EmptyCommentStyle:
+        return "byte order mark dropped", items, raw, got
     if bom and not got.startswith("﻿"):
         return "byte order mark no longer first", items, raw, got
     return None, items, raw, got
